@@ -149,8 +149,9 @@ def run(ctx: Ctx, env):
     for x in sp:
         news = [ev for ev in x.events if ev.kind == "new_obj" and ev.data["cls"] == STRIPPER]
         visits = [ev for ev in x.events if ev.kind == "visit"]
-        ok = (x.outcome == "return" and len(news) == 1 and len(news[0].data["args"]) == 1 and
-              repr(news[0].data["args"][0]) == repr(Sym("param", params[0])) and len(visits) == 1 and
+        given = (list(news[0].data["args"]) + [v for k, v in news[0].data.get("kwargs", {}).items() if k != "**"]) if len(news) == 1 else []
+        ok = (x.outcome == "return" and len(news) == 1 and len(given) == 1 and
+              repr(given[0]) == repr(Sym("param", params[0])) and len(visits) == 1 and
               getattr(visits[0].data["arg"], "path", None) == "expression" and visits[0].data["vcls"] == STRIPPER and
               isinstance(x.value, Sym) and x.value.op == "visit")
         ctx.check(ok, "R3.shorthand", "expression_relative_to_identifier",
